@@ -536,6 +536,25 @@ func (e *Engine) setStore(fr *frame, st *State, ns *sx.T, key *sx.T) {
 	st.defs = append(st.defs, sx.App("=", n, ns))
 	st.store = n
 	st.dirty = true
+	// snapshot frame: a write to a key outside a prefix P leaves the Find snapshot of P unchanged
+	// (count, keys in order, positions); stated for every P, instantiated where such snapshots are mentioned
+	if !e.Sweep {
+		spec.DeclareSnapshots()
+		pq, jq, kq := sx.Atom("p?sf"), sx.Atom("j?sf"), sx.Atom("k?sf")
+		out := sx.Not(sx.App("str.prefixof", pq, key))
+		mkq := func(vars []*sx.T, sorts []string, a, b *sx.T) *sx.T {
+			var bs []*sx.T
+			for i, v := range vars {
+				bs = append(bs, sx.List(v, sx.Atom(sorts[i])))
+			}
+			return sx.List(sx.Atom("forall"), sx.List(bs...), sx.List(sx.Atom("!"), sx.Implies(out, sx.App("=", a, b)),
+				sx.Atom(":pattern"), sx.List(a), sx.Atom(":pattern"), sx.List(b)))
+		}
+		st.facts = append(st.facts,
+			mkq([]*sx.T{pq}, []string{"String"}, sx.App("cnt", n, pq), sx.App("cnt", old, pq)),
+			mkq([]*sx.T{pq, jq}, []string{"String", "Int"}, sx.App("skey", n, pq, jq), sx.App("skey", old, pq, jq)),
+			mkq([]*sx.T{pq, kq}, []string{"String", "String"}, sx.App("sidx", n, pq, kq), sx.App("sidx", old, pq, kq)))
+	}
 	// fold update laws
 	if fr.ver != nil && fr.ver.sp != nil {
 		for fname, fd := range fr.ver.sp.Folds {
